@@ -8,6 +8,7 @@ SELFTEST_PARTS = ("num",)
 WALL_BUDGET = {"quick": 900, "thorough": 7200}
 OPS = ["create_a", "create_b", "write_a", "delete_a", "rename_a_b", "mkdir_d", "rmdir_d", "move_a_d", "rendir_d_e",
        "mkdir_d_s", "create_d_a"]
+OPS_EXT = OPS + ["mkdir_a", "rmdir_a"]          # a folder taking a file's name
 
 
 def norm_hist(hist):
@@ -30,7 +31,8 @@ def _factory(params, env=None):
                 side, op = first
             else:
                 side = e.choose("side", 2)
-                op = OPS[e.choose("op", len(OPS))]
+                ops = OPS_EXT if params.get("ext") else OPS
+                op = ops[e.choose("op", len(ops))]
             d = do_op(lab, side, op, b"v%d" % k)
             hist.append((side,) + tuple(d))
             if d[0] not in ("noop", "failed"):
@@ -54,10 +56,25 @@ def _factory(params, env=None):
     return fn
 
 
-HARNESSES = {"hist": _factory}
+def _corrupt_factory(params, env=None):
+    """liveness with one copy becoming unreadable (the fault of C02's family): the engine must still go quiet"""
+    from props import c02
+    p = dict(params)
+    p["liveness"] = True
+    return c02._factory(p, env)
+
+
+HARNESSES = {"hist": _factory, "corrupt": _corrupt_factory}
 
 
 def replay(harness, params, model):
+    if harness == "corrupt":
+        from props._hist import std_replay
+        r = std_replay(_corrupt_factory, harness, params, model)
+        if r.get("reproduced") and isinstance(r.get("sig"), dict):
+            if str(r["sig"].get("symptom", "")).startswith("engine not quiet"):
+                r["sig"]["symptom"] = "no-quiescence"
+        return r
     r = replay_driver(_factory, params, model)
     if r.get("reproduced"):
         r["sig"] = r.get("sigdata") or {"symptom": r.get("symptom"), "at": r.get("at"), "flavour": params["flavour"]}
@@ -66,6 +83,9 @@ def replay(harness, params, model):
 
 def signature(harness, params, rec):
     info = rec.get("info") or {}
+    if harness == "corrupt":
+        from props import c02
+        return c02.signature("loss", params, rec)
     if rec.get("status") == "exc":
         return {"flavour": params["flavour"], "symptom": rec.get("exc")}
     return {"flavour": params["flavour"], "base": params["base"], "ops": norm_hist([tuple(h) if isinstance(h, list) else h for h in info.get("hist", [])]),
@@ -92,6 +112,14 @@ def jobs(tier):
     for f, b, n, s, first in focus:
         out.append({"harness": "hist", "params": {"flavour": f, "base": b, "nops": n, "slots": s, "first": first},
                     "label": "%s/base%d/%dops/%dslots/first=%d:%s" % (f, b, n, s, first[0], first[1])})
+    # a folder taking a deleted file's name; one copy becoming unreadable while the other side has an unsynced edit
+    for f in (("oid", "path") if tier == "quick" else ("oid", "path", "mixed")):
+        for side in (0, 1):
+            out.append({"harness": "hist", "params": {"flavour": f, "base": 1, "nops": 2 if tier == "quick" else 3, "slots": 1, "first": [side, "delete_a"], "ext": True},
+                        "label": "%s/file-vs-folder/first=%d:delete_a" % (f, side)})
+            for op in ("write", "corrupt"):
+                out.append({"harness": "corrupt", "params": {"flavour": f, "base": 1, "nops": 2, "slots": 1 if tier == "quick" else 2, "first": [side, op]},
+                            "label": "%s/unreadable-copy/first=%d:%s" % (f, side, op)})
     return out
 
 
